@@ -23,6 +23,7 @@ class Typing:
         self.func_types = func_types or {}  # function name -> result type
         self.fields = sorted(index_types, key=len, reverse=True)
         self._root_cache = {}
+        self._collect_cache = {}
 
     def field_of_name(self, name):
         base = name.split("!")[0]
@@ -67,9 +68,23 @@ class Typing:
         return r
 
     def collect(self, formulas, cands):
-        """add typed ground Int terms occurring in `formulas` to cands: type -> {id: term}"""
+        """add typed ground Int terms occurring in `formulas` to cands: type -> {id: term}.
+        Results are cached per top-level formula (formulas are kept alive by the cache, so
+        their ids stay unique)."""
+        for f in formulas:
+            k = f.get_id()
+            hit = self._collect_cache.get(k)
+            if hit is None:
+                found = []
+                self._collect_one(f, found)
+                hit = (f, found)
+                self._collect_cache[k] = hit
+            for typ, t in hit[1]:
+                cands.setdefault(typ, {})[t.get_id()] = t
+
+    def _collect_one(self, f, found):
         seen = set()
-        todo = list(formulas)
+        todo = [f]
         while todo:
             t = todo.pop()
             i = t.get_id()
@@ -78,48 +93,78 @@ class Typing:
             seen.add(i)
             if z3.is_quantifier(t):
                 continue
-            if z3.is_app(t):
-                todo.extend(t.children())
-                if z3.is_select(t) or z3.is_store(t):
-                    info = self.array_info(t.arg(0))
-                    if info is not None and info[0]:
-                        idx = t.arg(1)
-                        if _ground(idx):
-                            cands.setdefault(info[0][0], {})[idx.get_id()] = idx
-                        if z3.is_select(t) and len(info[0]) == 1 and info[1] and t.sort().kind() == z3.Z3_INT_SORT:
-                            cands.setdefault(info[1], {})[t.get_id()] = t
-                elif z3.is_const(t) and t.sort().kind() == z3.Z3_INT_SORT and t.decl().kind() == z3.Z3_OP_UNINTERPRETED:
+            if not z3.is_app(t):
+                continue
+            ch = t.children()
+            todo.extend(ch)
+            dk = t.decl().kind()
+            if dk == z3.Z3_OP_SELECT or dk == z3.Z3_OP_STORE:
+                info = self.array_info(ch[0])
+                if info is not None and info[0]:
+                    found.append((info[0][0], ch[1]))
+                    if dk == z3.Z3_OP_SELECT and len(info[0]) == 1 and info[1] and t.sort().kind() == z3.Z3_INT_SORT:
+                        found.append((info[1], t))
+            elif dk == z3.Z3_OP_UNINTERPRETED and t.sort().kind() == z3.Z3_INT_SORT:
+                if not ch:
                     mt = self.marker_type(t.decl().name())
                     if mt:
-                        cands.setdefault(mt, {})[t.get_id()] = t
-                elif t.decl().kind() == z3.Z3_OP_UNINTERPRETED and t.sort().kind() == z3.Z3_INT_SORT:
+                        found.append((mt, t))
+                else:
                     ft = self.func_types.get(t.decl().name())
                     if ft:
-                        cands.setdefault(ft, {})[t.get_id()] = t
+                        found.append((ft, t))
 
 
 def _ground(t):
     return True
 
 
+_GLOBAL = {}   # (schema body id, argument ids) -> [instance, template instances, args, body] (kept alive)
+
+
 class Schemas:
     def __init__(self, typing):
         self.typing = typing
-        self.items = []     # (label, types, fn)
+        self.items = []     # (label, types, placeholders, body, templates)
         self.cache = {}
         self.keep = []
+        self._n = 0
 
     def add(self, label, types, fn):
-        self.items.append((label, tuple(types), fn))
+        types = tuple(types)
+        self._n += 1
+        ph = [z3.Int(f"ph!{self._n}!{i}") for i in range(len(types))]
+        body = fn(*ph)
+        if body is None:
+            return
+        # typed sub-terms of the body that mention a placeholder: instantiating them yields the
+        # new candidate terms of the next round without walking every instance
+        found = []
+        self.typing._collect_one(body, found)
+        ph_ids = {p.get_id() for p in ph}
+        templates = []
+        seen = set()
+        for typ, t in found:
+            if t.get_id() in seen or t.get_id() in ph_ids:
+                continue
+            seen.add(t.get_id())
+            if _mentions_any(t, ph_ids):
+                templates.append((typ, t))
+        ground = [(typ, t) for typ, t in found if not _mentions_any(t, ph_ids)]
+        self.items.append((label, types, ph, body, templates, ground))
 
-    def instantiate(self, formulas, max_instances=6000, rounds=2):
+    def instantiate(self, formulas, max_instances=8000, rounds=2):
         cands = {}
         self.typing.collect(formulas, cands)
+        for it in self.items:
+            for typ, t in it[5]:
+                cands.setdefault(typ, {})[t.get_id()] = t
         used = set()
         out = []
-        for _ in range(rounds):
+        for rnd in range(rounds):
             new = []
-            for si, (label, types, fn) in enumerate(self.items):
+            newc = []
+            for si, (label, types, ph, body, templates, ground) in enumerate(self.items):
                 pools = [list(cands.get(t, {}).values()) for t in types]
                 if any(not p for p in pools):
                     continue
@@ -128,16 +173,42 @@ class Schemas:
                     if key in used:
                         continue
                     used.add(key)
-                    f = self.cache.get(key)
-                    if f is None:
-                        f = fn(*tup)
-                        self.cache[key] = f
-                        self.keep.append(tup)    # keep terms alive: ids are only unique while referenced
-                    new.append(f)
+                    gkey = (body.get_id(),) + key[1:]
+                    hit = _GLOBAL.get(gkey)
+                    if hit is None:
+                        sub = list(zip(ph, tup))
+                        f = z3.substitute(body, *sub) if sub else body
+                        hit = [f, None, tup, body]
+                        if len(_GLOBAL) > 400000:
+                            _GLOBAL.clear()
+                        _GLOBAL[gkey] = hit
+                    new.append(hit[0])
+                    if rnd + 1 < rounds:
+                        if hit[1] is None:
+                            sub = list(zip(ph, tup))
+                            hit[1] = [(typ, z3.substitute(t, *sub)) for typ, t in templates]
+                        newc.extend(hit[1])
                     if len(out) + len(new) > max_instances:
                         return out + new, True
             if not new:
                 break
             out.extend(new)
-            self.typing.collect(new, cands)
+            for typ, t in newc:
+                cands.setdefault(typ, {})[t.get_id()] = t
         return out, False
+
+
+def _mentions_any(t, ids):
+    seen = set()
+    todo = [t]
+    while todo:
+        x = todo.pop()
+        i = x.get_id()
+        if i in seen:
+            continue
+        seen.add(i)
+        if i in ids:
+            return True
+        if z3.is_app(x):
+            todo.extend(x.children())
+    return False
